@@ -46,6 +46,9 @@ def handleC17Single : List String → Option String
   | ["c17.touchcore", things, containers, w] => do
     let t ← parseRows things; let c ← parseRows containers; let w ← w.toInt?
     pure s!"ok {showPairsNat (touchingWindowsCore t c w)}"
+  | ["c17.splittouch", things, containers, w] => do
+    let t ← parseRows things; let c ← parseRows containers; let w ← w.toInt?
+    pure <| showExcept showGroups (splitTouchingWindows t c w)
   | ["c17.diff", rows] => do
     let r ← parseRows rows
     pure s!"ok {showInts (diffGaps r)}"
